@@ -15,7 +15,8 @@ unsigned long vreplay_get(const char *name, long idx);
 extern int vfail_count;
 void vout(const char *name, long idx, unsigned long v);
 #define VASSERT(c, msg) do { if (!(c)) { printf("ASSERT-FAIL: %s\n", msg); fflush(stdout); vfail_count++; } } while (0)
-#define VASSUME(c) do { if (!(c)) { printf("ASSUME-FALSE: %s\n", #c); fflush(stdout); exit(3); } } while (0)
+/* an assertion that failed BEFORE the path is cut stays failed (as under CBMC): exit 10, not 3 */
+#define VASSUME(c) do { if (!(c)) { printf("ASSUME-FALSE: %s\n", #c); fflush(stdout); exit(vfail_count ? 10 : 3); } } while (0)
 #define IN(type, name) type name = (type) vreplay_get(#name, -1)
 #define IN_ARR(type, name, n) type name[n]; for (long _i = 0; _i < (long)(n); _i++) name[_i] = (type) vreplay_get(#name, _i)
 double vreplay_getf(const char *name);
